@@ -48,7 +48,8 @@ def probes():
     return ["file_rewritten", "header_rewritten", "header_with_defaults_rewritten", "header_with_star_rewritten",
             "docstring_replaced", "docstring_added", "async_def", "nested_def", "decorated_def", "method",
             "file_unchanged", "io_fault_fired", "line_fault_fired", "fault_after_write_open", "second_pass",
-            "multiline_header", "colon_in_default", "backslash_in_docstring", "docstring_only_body"] + [
+            "multiline_header", "colon_in_default", "backslash_in_docstring", "docstring_only_body",
+            "types_only_docstring"] + [
         "lexical_shape_" + x for x in SHAPES]
 
 
@@ -93,6 +94,8 @@ def func_item(draw, depth=0, method=False, used=None):
         iface["params"][0]["doc"] = iface["params"][0]["doc"] + " matching \\\\d+ digits"
     item = {"kind": "func", "iface": iface, "style": style, "types_in": types_in,
             "doc_only": draw(st.integers(0, 7)) == 7,
+            # a docstring that carries nothing but :type:/:rtype: lines (no summary, no descriptions)
+            "types_only_doc": draw(st.integers(0, 9)) == 9,
             "async": draw(st.integers(0, 5)) == 5, "decorators": draw(st.lists(st.sampled_from(DECORATORS), max_size=1))
             if draw(st.integers(0, 3)) == 3 else [],
             "multiline": draw(st.integers(0, 3)) == 3, "vararg": vararg, "kwonly": kwonly, "kwarg": kwarg, "body": body,
@@ -272,7 +275,17 @@ def render_func(item, indent=""):
         lines.append("%s)%s:" % (indent, arrow))
     else:
         lines.append("%s%s %s(%s)%s:" % (indent, kw, iface["name"], sig, arrow))
-    if item["style"] != "none":
+    if item.get("types_only_doc") and item["style"] != "none" and (iface["params"] or ret):
+        doc = ['%s"""' % inner]
+        for p_ in iface["params"]:
+            doc += ["%s:type %s: ```%s```" % (inner, p_["name"], p_["typ"]), ""]
+        if ret:
+            doc.append("%s:rtype: ```%s```" % (inner, ret["typ"]))
+        elif doc[-1] == "":
+            doc.pop()
+        doc.append('%s"""' % inner)
+        lines.append("\n".join(doc))
+    elif item["style"] != "none":
         documented = dict(iface)
         documented["params"] = list(iface["params"]) + list(item.get("kwonly", ()))
         lines.append(gen.render_docstring(documented, item["style"], indent=inner,
@@ -600,6 +613,8 @@ def _features(spec):
                 f["backslash_in_docstring"] = True
             if it.get("doc_only") and it["style"] != "none" and not it.get("nested"):
                 f["docstring_only_body"] = True
+            if it.get("types_only_doc") and it["style"] != "none":
+                f["types_only_docstring"] = True
             if it.get("method"):
                 f["method"] = True
             if it.get("nested"):
@@ -762,7 +777,7 @@ def simulate(plan, tier_lines=12, per_line=False):
                 viols.append({"clause": "A5", "detail": "doctrans raised %s (%s) but the file changed" % (
                     o.exc_type, (o.exc_msg or "")[:120]), "sig": {"what": "natural_error", "site": o.exc_site}})
             for k in ("async", "nested", "decorated", "method", "multiline", "colon_in_default", "backslash_in_docstring",
-                      "docstring_only_body"):
+                      "docstring_only_body", "types_only_docstring"):
                 if feats.get(k):
                     bump(probe, {"async": "async_def", "nested": "nested_def", "decorated": "decorated_def",
                                  "method": "method", "multiline": "multiline_header"}.get(k, k))
